@@ -88,6 +88,17 @@ Definition o_round (q : frac) : Z :=
   let r := fst q mod snd q in
   if 2 * r <? snd q then f else if snd q <? 2 * r then f + 1 else if Z.even f then f else f + 1.
 
+(* exact float arithmetic used around the rounding operators: Abs / Sign of a fraction, fraction minus an
+   integer-valued float (exact whenever the true difference is representable, e.g. |x| - floor |x|), comparison of
+   two fractions; Add / Mul of integer-valued floats are the integer operations (exact while the result is
+   representable) *)
+Definition q_abs (q : frac) : frac := (Z.abs (fst q), snd q).
+Definition q_sign (q : frac) : Z := Z.sgn (fst q).
+Definition q_sub_z (q : frac) (z : Z) : frac := (fst q - z * snd q, snd q).
+Definition q_eqb (a b : frac) : bool := fst a * snd b =? fst b * snd a.
+Definition z_add (x y : Z) : Z := x + y.
+Definition z_mul (x y : Z) : Z := x * y.
+
 (* ---------------------------------------------------------------- OneHot / Slice (index arithmetic) *)
 (* OneHot(indices, depth, [off, on]) along the class axis, class j: indices in [-depth, depth-1], a negative
    index counts from the end, anything else gives all-off *)
